@@ -489,6 +489,64 @@ def alloc_size_rule(chk, prog, files):
     return n
 
 
+def alloc_trunc_rule(chk, prog, files):
+    """K13-trunc: a number that sizes an allocation (directly, or through the member that is later taken for its capacity)
+    is not cut down to 32 bits on the way unless it is known to fit: `u32 bytes = count * sizeof(x)` with a count from
+    the image wraps, the buffer is too small for the index computed in full width elsewhere"""
+    from ..bounds2 import Bounder, Cap
+    from ..bounds import ALLOC_FNS
+    n = 0
+    for f in prog.functions():
+        if f.decl or f.unit.src not in files:
+            continue
+        f.build()
+        for c in f.calls():
+            nm = norm_callee(c.callee)
+            if nm not in ALLOC_FNS:
+                continue
+            sizes = [c.ops[k] for k in ALLOC_FNS[nm] if k < len(c.ops)]
+            tr = []
+
+            def wide_slice(v):
+                """backward slice that goes from a load of an object member to what this function stores in that member"""
+                out, seen, st_ = [], set(), [v]
+                while st_ and len(out) < 400:
+                    x = st_.pop()
+                    if id(x) in seen:
+                        continue
+                    seen.add(id(x))
+                    out.append(x)
+                    if not x.is_inst:
+                        continue
+                    if x.op == "load":
+                        q = strip_casts(x.ops[0])
+                        if q.is_inst and q.op == "getelementptr" and q.field():
+                            for j in f.insts():
+                                if j.op == "store" and strip_casts(j.ops[1]).is_inst and strip_casts(j.ops[1]).op == "getelementptr" and \
+                                        strip_casts(j.ops[1]).field() == q.field():
+                                    st_.append(j.ops[0])
+                        continue
+                    if x.op not in ("call", "phi") or x.op == "phi":
+                        st_.extend(o for o in x.ops if not o.is_const)
+                return out
+            for a in sizes:
+                for x in wide_slice(a):
+                    if x.is_inst and x.op == "trunc" and x.ty == "i32" and (getattr(x.ops[0], "ty", "") == "i64") and \
+                            any(y.is_inst and y.op in ("mul", "shl", "add") for y in [x.ops[0]] + list(backward_slice(x.ops[0], phi_control=False, limit=20))):
+                        tr.append(x)
+            for x in {id(t): t for t in tr}.values():
+                n += 1
+                chk.analysed(f)
+                inst = "%s:%s@%d:trunc@%d" % (f.name, nm, c.line, x.line)
+                if Bounder(prog, f).bounded(x.ops[0], x, Cap(const=0xFFFFFFFF, desc="32 bits")):
+                    chk.ok("K13-trunc", inst, x, "the value fits 32 bits where it is narrowed")
+                else:
+                    chk.violation("K13-trunc", inst, x, "a size that an allocation is computed from is narrowed to 32 bits without being "
+                                  "known to fit: for large counts from the image the buffer is smaller than the index range used "
+                                  "elsewhere")
+    return n
+
+
 def run(chk):
     chk.explanation = (
         "K6 bounded-sink rule over every unit anchored by the property (all readers, decompressors, tree readers, "
@@ -526,6 +584,7 @@ def run(chk):
     chk.floor("K1-super", 6)
     # the metadata reader's cursor: offset <= data_used <= sizeof(data) at every store, every copy out of data + offset is
     # at most data_used - offset long (sa/slack.py)
+    alloc_trunc_rule(chk, load_program("rdsquashfs"), files)
     out_contract_rule(chk, load_program("rdsquashfs"))
     chk.floor("K6-outcontract", 1)
     from ..slack import run_fill
@@ -557,6 +616,11 @@ def controls(chk):
     chk.control("K6-src/silent", ("K6-src", "ctl_src_ok") not in got3 and ("K6-src", "ctl_src_sum64") not in got3, "guarded copy out of a field buffer must not be reported")
     chk.control("K6-memver", ("K6", "ctl_stale_guard") in got, "a field is compared, rewritten by a callee, then used as the length")
     chk.control("K6-memver/silent", ("K6", "ctl_fresh_guard") not in got, "a call in between that writes another field must not matter")
+    sub4 = Check("C05-control", chk.tier)
+    alloc_trunc_rule(sub4, prog, {"c05_controls.c"})
+    got4 = {(o["rule"], o["function"]) for o in sub4.obl if o["verdict"] == "VIOLATED"}
+    chk.control("K13-trunc", ("K13-trunc", "ctl_trunc_count") in got4, "byte count of a table narrowed to 32 bits before it sizes the allocation")
+    chk.control("K13-trunc/silent", ("K13-trunc", "ctl_wide_count") not in got4, "the same in full width must not be reported")
     chk.control("K6-growth", ("K6", "ctl_grow_bad") in got, "buffer grown until the new entry alone fits, ignoring what is stored already")
     from ..dangling import run_dangling
     sub2 = Check("C05-control", chk.tier)
